@@ -11,6 +11,8 @@ import (
 
 func init() { scenarios["C08"] = scenarioC08 }
 
+func serversActiveNow() string { return serversActive() }
+
 func serversActive() string {
 	return jrpc2.ServerMetrics().Get("servers_active").String()
 }
@@ -48,6 +50,10 @@ func scenarioC08(r *Run) {
 	s := r.Sample.(map[string]any)
 	s["close_after"], s["recv_faults"], s["send_faults"] = w.closeAfter, fmt.Sprint(w.sEnd.FaultRecvAt), fmt.Sprint(w.sEnd.FaultSendAt)
 	active0 := serversActive()
+	sEnd2, pEnd2 := NewPipe(r, "srv2", "peer2")
+	if g.Chance("restartatonce", 0.5) {
+		w.restartEnd = sEnd2
+	}
 	w.start()
 	if !w.drive(nil) {
 		return
@@ -60,7 +66,7 @@ func scenarioC08(r *Run) {
 	if r.Failed() {
 		return
 	}
-	w.restartProbe(active0)
+	w.restartProbe(active0, sEnd2, pEnd2)
 }
 
 func (w *srvWorld) checkC08(active0 string) {
@@ -192,6 +198,14 @@ func (w *srvWorld) checkC08(active0 string) {
 			}
 		}
 	}
+	if w.restarted {
+		// the server is already running again on the fresh channel; the gauge and
+		// the census are judged after that connection has ended (restartProbe)
+		if w.activeAtRestart != active0 {
+			r.Fail("servers-active-delta", "servers_active was %s when WaitStatus returned, %s before Start", w.activeAtRestart, active0)
+		}
+		return
+	}
 	if a := serversActive(); a != active0 {
 		r.Fail("servers-active-delta", "servers_active is %s after WaitStatus returned, was %s before Start", a, active0)
 		return
@@ -212,9 +226,8 @@ func (w *srvWorld) census(when string) {
 
 // restartProbe starts the same server on a fresh channel and checks it serves
 // normally and shows no residue of the previous connection.
-func (w *srvWorld) restartProbe(active0 string) {
+func (w *srvWorld) restartProbe(active0 string, sEnd, pEnd *End) {
 	r := w.r
-	sEnd, pEnd := NewPipe(r, "srv2", "peer2")
 	var out []string
 	sEnd.OnSend = func(e *End, rec []byte) { out = append(out, string(rec)) }
 	// reuse an id of the previous connection, preferably one that was in flight
@@ -235,7 +248,9 @@ func (w *srvWorld) restartProbe(active0 string) {
 				panicked = fmt.Sprint(p)
 			}
 		}()
-		w.srv.Start(sEnd)
+		if !w.restarted {
+			w.srv.Start(sEnd)
+		}
 	})
 	r.Sim.Spawn("r-peer", func() {
 		rt.Yield("probe:start")
